@@ -139,6 +139,25 @@ def o_middleware(inp):
                 return (("mw:split-value", repr(f.value), repr(exp)), True, cls)
         elif f.value != v:
             return (("mw:other-field", repr(f.value), repr(v)), True, cls)
+    # history independence at the middleware level: the NameParts handed out belong to that library; altering them
+    # must not show up when the same names are split again (another entry, another library, another instance)
+    expected_again = {}
+    for f, (k, v) in zip(b.fields, inp["fields"]):
+        if k in name_fields:
+            expected_again[k] = [(tuple(x.first), tuple(x.von), tuple(x.last), tuple(x.jr)) for x in f.value]
+            for x in f.value:
+                x.first.append("<altered>")
+                x.last.insert(0, "<altered>")
+    fields2 = [Field(k, list(v), i) for i, (k, v) in enumerate(inp["fields"])]
+    lib2 = Library([Entry("article", "k2", fields2, start_line=9, raw="@article{k2,...}")])
+    out2 = SplitNameParts(allow_inplace_modification=True).transform(lib2)
+    b2 = out2.blocks[0]
+    if isinstance(b2, Entry):
+        for f in b2.fields:
+            if f.key in expected_again:
+                got = [(tuple(x.first), tuple(x.von), tuple(x.last), tuple(x.jr)) for x in f.value]
+                if got != expected_again[f.key]:
+                    return (("mw:result-shared-between-libraries", repr(got), repr(expected_again[f.key])), True, cls)
     return (None, len(inp["fields"]) > 0, cls)
 
 
